@@ -6,6 +6,8 @@ import (
 	"fmt"
 	"io"
 	"math/rand"
+	"net/http/httptest"
+	"net/url"
 	"os"
 	"path/filepath"
 	"strings"
@@ -426,6 +428,54 @@ func runC04(cfg Config) {
 		doDecode("sha512", randBytes(rng, rng.Intn(200)), "random")
 	}
 
+	// index stores: the bytes a store keeps under a name are the WriteTo encoding of the last index
+	// stored there, also when the name held a longer index before (local file, HTTP index server
+	// in front of a local index store)
+	{
+		dir := filepath.Join(cfg.Work, "idxstore")
+		os.MkdirAll(dir, 0755)
+		ls, err := desync.NewLocalIndexStore(dir)
+		if err == nil {
+			ts := httptest.NewServer(desync.NewHTTPIndexHandler(ls, true, ""))
+			u, _ := url.Parse(ts.URL + "/")
+			hs, _ := desync.NewRemoteHTTPIndexStore(u, desync.StoreOptions{})
+			stores := map[string]desync.IndexWriteStore{"local": ls, "http": hs}
+			for it := 0; it < cfg.N(60, 1200); it++ {
+				for kind, st := range stores {
+					name := fmt.Sprintf("%s-%d.caibx", kind, it%7) // names are reused: later indexes overwrite earlier ones
+					idx := genIndex(rng)
+					representable := len(idx.Chunks) == 0 || idx.Chunks[0].Size > 0
+					for _, c := range idx.Chunks {
+						if c.Start+c.Size < c.Start || c.Size > idx.Index.ChunkSizeMax {
+							representable = false
+						}
+					}
+					if !representable || algForFlags(idx.Index.FeatureFlags) != "sha512" {
+						continue
+					}
+					line := encodeCase(idx)
+					if err := st.StoreIndex(name, idx); err != nil {
+						monitor("StoreIndex failed on a well-formed index: "+err.Error(), line+" store="+kind, "")
+						continue
+					}
+					onDisk, _ := os.ReadFile(filepath.Join(dir, name))
+					got := hx(onDisk)
+					rep.Count(line+" store="+kind, len(idx.Chunks) > 0, "indexstore:"+kind)
+					if m.cmd != nil {
+						if want := m.Ask(line); want != got {
+							rep.Disagree(Disagreement{Kind: "correspondence", Case: clip(line+" store="+kind+" name="+name, 100000), Model: clip(want, 400), Impl: clip(got, 400),
+								What: fmt.Sprintf("the file the %s index store keeps (%d bytes) is not the encoding of the index stored last", kind, len(onDisk))})
+						}
+					}
+					back, err := st.GetIndex(name)
+					if err != nil || indexStr(back) != indexStr(idx) {
+						monitor("GetIndex does not return the index stored last ("+kind+")", line, fmt.Sprint(err))
+					}
+				}
+			}
+			ts.Close()
+		}
+	}
 	rep.Write(cfg.Out)
 }
 
